@@ -6,6 +6,7 @@ Problems are registered with ctx.problem(...).  vlib/props/c16.py combines this 
 import hashlib, os, re, shutil, time
 from concurrent.futures import ProcessPoolExecutor
 from .. import common as C
+from .. import ctie
 
 HARNESS = os.path.join(C.VERIF, "harness", "htb_h.c")
 HASHERS = {"id": lambda k: k, "const": lambda k: 7, "mul": lambda k: k * 7 + 3}
@@ -484,6 +485,7 @@ def stage(ctx, libdir):
     hawk = os.path.join(ctx.scratch, "hawk-c16htb")
     shutil.copy2(os.path.join(libdir, "hawk"), hawk)
     res["proofs"].append(prove_multi_ns(ctx, "HawkModel.Props.C16Htb", ctx.tier == "thorough"))
+    res["proofs"] += ctie.tie(ctx, "C16", leanchecker=(ctx.tier == "thorough"))   # sizing arithmetic of htb.c: translated C = model
     htb_stage(ctx, exe, res)
     forin_stage(ctx, hawk, res)
     mapval_stage(ctx, exe_mv, res)
@@ -503,7 +505,7 @@ def stage(ctx, libdir):
                    "map/array value API: seeded histories of set/get/del/clear/iterate through hawk_rtx_setmapvalfld/getmapvalfld/"
                    "getfirstmapvalitr/getnextmapvalitr and setarrvalfld/getarrvalfld against python dictionaries (order = key strings bytewise) and "
                    "HawkModel.ForIn.Val")
-    res["trusted"] = ["run_forin modelled by hand in HawkModel/ForIn.lean (allocation failures inside run_forin and reference counting not modelled; "
+    res["trusted"] = [ctie.TRUSTED % "C16", "run_forin modelled by hand in HawkModel/ForIn.lean (allocation failures inside run_forin and reference counting not modelled; "
                       "language level covers the statement language of ForIn.Stmt with numeric keys)",
                       "htb.c modelled by hand in HawkModel/Htb.lean (custom copier callbacks not modelled — outside the four predefined styles; hawk_htb_cbsert modelled for callbacks that refuse, keep, or build a fresh pair; key-copier kind "
                       "has no structural effect and is not a model parameter; payloads are small integers)"]
